@@ -110,7 +110,13 @@ class Report:
         tmp = os.path.join(EVID, f".{self.prop}.{os.getpid()}.tmp")
         with open(tmp, "w") as f:
             json.dump(ev, f, indent=1, default=repr)
-        os.replace(tmp, os.path.join(EVID, f"{self.prop}{os.environ.get('VERIF_EVID_SUFFIX', '')}.json"))
+        sfx = os.environ.get("VERIF_EVID_SUFFIX", "")
+        os.replace(tmp, os.path.join(EVID, f"{self.prop}{sfx}.json"))
+        if self.tier == "thorough" and not sfx:
+            # the last thorough run is also kept beside the (usually quick) evidence file, which every run overwrites
+            os.makedirs(os.path.join(EVID, "thorough"), exist_ok=True)
+            with open(os.path.join(EVID, "thorough", f"{self.prop}.json"), "w") as f:
+                json.dump(ev, f, indent=1, default=repr)
         for k in self.known:
             print(f"KNOWN-FINDING: property={self.prop} {k}")
         for p, text in self.violations[:5]:
